@@ -26,9 +26,11 @@ package ocidir
 //@   in ~/scheme/ocidir
 //@   infunc \)\.ManifestDelete$
 //@   requires digest-absent: forall(k, 0, len(index.Manifests), index.Manifests[k].Digest != caller.r.Digest)
+//@ ghost $indexScanned bool
 //@ func (*OCIDir).ManifestDelete(ctx, r, opts) (err)
-//@   prop C06, C04
-//@   entry-assume !$indexWritten
+//@   prop C06, C04, C07
+//@   entry-assume !$indexWritten && !$indexScanned
+//@   on-call readIndex: $indexScanned = (result1 == nil)
 //@   loop 1 (i)
 //@     invariant range: -1 <= i && i < len(index.Manifests)
 //@     invariant suffix-clean: forall(k, i + 1, len(index.Manifests), index.Manifests[k].Digest != r.Digest)
@@ -105,7 +107,9 @@ package ocidir
 //@   name os.Remove/ManifestDelete
 //@   in ~/scheme/ocidir
 //@   infunc \)\.ManifestDelete$
-//@   requires index-rewritten-first: !caller.changed || $indexWritten
+//   (the index was read in this call, and rewritten if it named the manifest: a removal that comes
+//   before the index update would leave, after a crash in between, tags that resolve to a missing file)
+//@   requires index-rewritten-first: $indexScanned && (!caller.changed || $indexWritten)
 
 // ---- C05 (OCI layout): a blob is renamed under its digest name only after verification ----
 //@ callsite os.Rename(oldpath, newpath)
